@@ -65,6 +65,32 @@ def gen_graph(rng):
     rn._verif_input_weights = w
     return rn
 
+def twin_graphs(rng):
+    n = rng.randint(3, 4)
+    def build(fast):
+        g = nx.MultiDiGraph()
+        step = 0.0036 if not fast else 0.0014
+        for i in range(n):
+            for j in range(n):
+                g.add_node(i * n + j + 1, y=39.74 + i * step, x=-104.99 + j * step * 1.3)
+        r = random.Random(f'{n}|{fast}')
+        def add(u, v):
+            length = (400.0 if not fast else 150.0)
+            speed = r.choice([5.0, 8.0]) if not fast else (90.0 if (min(u, v) - 1) // n == 1 and abs(u - v) == 1 else r.choice([20.0, 25.0]))
+            g.add_edge(u, v, length=length, speed_kmph=speed, travel_time=length / 1000.0 / speed * 3600.0)
+        for i in range(n):
+            for j in range(n):
+                u = i * n + j + 1
+                if j + 1 < n:
+                    add(u, u + 1); add(u + 1, u)
+                if i + 1 < n:
+                    add(u, u + n); add(u + n, u)
+        w = input_weights(g)
+        rn = OSMRoadNetwork(g)
+        rn._verif_input_weights = w
+        return rn
+    return build(False), build(True)
+
 def weights(rn):
     if getattr(rn, '_verif_input_weights', None) is not None:
         return dict(rn._verif_input_weights)
@@ -187,6 +213,11 @@ def engine(res, spec, tier, seed, extended=False):
     rng0 = random.Random(seed * 31337)
     for k in range(n_gen):
         nets.append((f'generated{k}', gen_graph(random.Random(seed * 31337 + k))))
+    # twins: the same junction ids and street plan twice, first with slow streets everywhere, then with fast arterials among them.
+    # Whatever a network object remembers (about junction ids, pairs, links) must not leak into another network.
+    for k in range(1 if tier == 'quick' else 6):
+        a, b = twin_graphs(random.Random(f'twins|{seed}|{k}'))
+        nets.append((f'twin{k}_slow', a)); nets.append((f'twin{k}_fast', b))
     seen = set()
     route_terms, cert_terms = [], []
     stats = {'pairs': 0, 'suboptimal': 0, 'max_excess_pct': 0.0}
